@@ -1,5 +1,6 @@
 import HexProofs.Resume.FindCalcIndex
 import HexProofs.Footprint.Kinds
+import HexProofs.Footprint.Trees
 /-
 C07 – Work per appended candle is constant.
 What is proved (every float carrier `F`): (1) after warm-up the resume logic makes every indicator
@@ -9,10 +10,17 @@ indicator class (all 14 leaf classes incl. `Amorph` over the 20 analysis functio
 of ATR, BBANDS, KC, STDEVTHRES) that one reading is a function of the last `W + 1` candles only, `W = window k`
 a function of the parameters alone (`bounded_footprint`, `newest_reading_reads_window`) – candles older than
 `index − W` are never looked at, however long the history.
-What is NOT a theorem: the footprint of the nine kinds whose step also WRITES helper series (HMA, STDEV,
-Supertrend, RSI, MACD, STOCH, TSI, ADX, VWAP: `window k = none`; measured on the real code with a recording
-list and `sys.setprofile`, see hx/oracles/framework.py), the candle manager's own O(n) re-walk of the list on
-every append (outside the property's statement, which is about indicator work) and wall-clock cost.
+(3) **bounded footprint for ALL 27 classes** (`CoveredTreeX`, the nine kinds whose step also WRITES helper series or drives
+managed children included: HMA, STDEV, Supertrend, RSI, MACD, STOCH, TSI, ADX, VWAP): on a finished list with fresh candles
+appended, dropping any `d` old candles that leave `lookback k` finished ones gives EXACTLY the full result minus those candles –
+same candles (readings, helper series, `_data` series) or the same exception (`bounded_footprint_trees`, an equation in `PyM`);
+the new candle is a function of the last `lookback k` finished candles and the appended one (`newest_reading_reads_window_trees`,
+`new_candles_window_function_trees`); an append of one candle changes exactly one candle (`append_one_changes_one_trees`);
+`lookback k` is a closed form in the PARAMETERS (`lookback_params_only`).
+What is NOT a theorem: call / instruction counts (measured on the real code with a recording list and `sys.setprofile`, see
+hx/oracles/framework.py), the candle manager's own O(n) re-walk of the list on every append (outside the property's statement,
+which is about indicator work), wall-clock cost; object-level forms are on the base timeframe (the engine-level theorems are
+manager-agnostic).
 Status: partial, by nature (DESIGN.md, C07).
 -/
 namespace Hex.C07
@@ -93,5 +101,74 @@ theorem window_defined_iff_readOnly (k : Kind F) : (Hex.window k).isSome = k.rea
 example : Hex.window (F := F) (.sma 20 "close") = some 20 ∧ Hex.window (F := F) (.ema 20 "close" (.int 2)) = some 19
     ∧ Hex.window (F := F) (.aroon 14) = some 14 ∧ Hex.window (F := F) (.amorph (.doji none)) = some 10 := by
   refine ⟨rfl, rfl, rfl, rfl⟩
+
+/-! ### bounded footprint for EVERY class (the nine helper-writing classes included) -/
+
+/-- look-back of a class: a closed form in the parameters (`Hex.lookback`), equal to `treeLook` whatever
+the name, the rounding, the data and the history length -/
+theorem lookback_params_only (k : Kind F) (name : String) (round : Nat) :
+    treeLook k name round = lookback k := treeLook_eq k name round
+
+/-- **History-length independence, every class** (`CoveredTreeX`): on a finished list (`CalcFull`: the state
+after `calculate()` returned, `finished_after_calculate`) with fresh candles `ch` appended, dropping any `d`
+old candles that leave `lookback k` finished ones gives EXACTLY the full result minus those candles – same
+candles (readings, helper series, `_data` series) or the same exception. -/
+theorem bounded_footprint_trees (k : Kind F) (name : String) (round : Nat) (hc : CoveredTreeX name k)
+    (done ch : List (Candle F)) (d : Nat) (hfin : CalcFull (mkTop k name round) done)
+    (hp : ∀ c ∈ ch, Plain c) (hkeep : d + lookback k ≤ done.length) :
+    engineCalc (mkTop k name round) (done.drop d ++ ch)
+      = (engineCalc (mkTop k name round) (done ++ ch)).map (·.drop d) :=
+  _root_.Hex.bounded_footprint_trees k name round hc done ch d hfin hp hkeep
+
+/-- **The newest candle is a function of the last `lookback k` finished candles and the appended one**:
+two finished histories of any lengths agreeing on their last `lookback k` candles give the same new candle
+(or the same exception). -/
+theorem newest_reading_reads_window_trees (k : Kind F) (name : String) (round : Nat)
+    (hc : CoveredTreeX name k) (done₁ done₂ : List (Candle F)) (x : Candle F)
+    (h₁ : CalcFull (mkTop k name round) done₁) (h₂ : CalcFull (mkTop k name round) done₂) (hp : Plain x)
+    (hL₁ : lookback k ≤ done₁.length) (hL₂ : lookback k ≤ done₂.length)
+    (hw : done₁.drop (done₁.length - lookback k) = done₂.drop (done₂.length - lookback k)) :
+    (engineCalc (mkTop k name round) (done₁ ++ [x])).map List.getLast?
+      = (engineCalc (mkTop k name round) (done₂ ++ [x])).map List.getLast? :=
+  _root_.Hex.newest_reading_reads_window_trees k name round hc done₁ done₂ x h₁ h₂ hp hL₁ hL₂ hw
+
+/-- … as ONE function `g` of `lookback k` candles and the fresh ones, valid for every history -/
+theorem new_candles_window_function_trees (k : Kind F) (name : String) (round : Nat)
+    (hc : CoveredTreeX name k) :
+    ∃ g : List (Candle F) → List (Candle F) → PyM (List (Candle F)),
+      ∀ done ch : List (Candle F), CalcFull (mkTop k name round) done → (∀ c ∈ ch, Plain c) →
+        lookback k ≤ done.length →
+        (done.drop (done.length - lookback k)).length = lookback k ∧
+        (engineCalc (mkTop k name round) (done ++ ch)).map (·.drop done.length)
+          = g (done.drop (done.length - lookback k)) ch :=
+  _root_.Hex.new_candles_window_function_trees k name round hc
+
+/-- **One appended candle changes exactly one candle**: every earlier candle is returned as it was. -/
+theorem append_one_changes_one_trees (k : Kind F) (name : String) (round : Nat) (hc : CoveredTreeX name k)
+    (done out : List (Candle F)) (x : Candle F) (hfin : CalcFull (mkTop k name round) done) (hp : Plain x)
+    (h : engineCalc (mkTop k name round) (done ++ [x]) = .ok out) :
+    ∃ x', out = done ++ [x'] ∧ hasKey name x' = true ∧ hasKey name x = false :=
+  _root_.Hex.append_one_changes_one_trees k name round hc done out x hfin hp h
+
+/-- the state after `calculate()` over raw candles is finished (and stays so through appends:
+`Hex.finished_append`, `Hex.run_finished`) -/
+theorem finished_after_calculate (k : Kind F) (name : String) (round : Nat) (hc : CoveredTreeX name k)
+    (raw done : List (Candle F)) (hp : ∀ c ∈ raw, Plain c) (h : engineCalc (mkTop k name round) raw = .ok done) :
+    CalcFull (mkTop k name round) done :=
+  finished_of_engine_trees k name round hc raw done hp h
+
+/-- the object (`Indicator.append` on the base timeframe) after ANY two append schedules -/
+theorem newest_reading_reads_window_object (k : Kind F) (name : String) (round : Nat)
+    (hc : CoveredTreeX name k) (init₁ init₂ : List (Candle F)) (chunks₁ chunks₂ : List (List (Candle F)))
+    (hp₁ : ∀ c ∈ init₁ ++ chunks₁.flatten, Plain c) (hp₂ : ∀ c ∈ init₂ ++ chunks₂.flatten, Plain c)
+    (st₁ st₂ : IndState F) (hr₁ : runIndicator (mkTop k name round) {} init₁ chunks₁ = .ok st₁)
+    (hr₂ : runIndicator (mkTop k name round) {} init₂ chunks₂ = .ok st₂) (x : Candle F) (hx : Plain x)
+    (hL₁ : treeLook k name round ≤ st₁.mgr.candles.length)
+    (hL₂ : treeLook k name round ≤ st₂.mgr.candles.length)
+    (hw : st₁.mgr.candles.drop (st₁.mgr.candles.length - treeLook k name round)
+        = st₂.mgr.candles.drop (st₂.mgr.candles.length - treeLook k name round)) :
+    (candlesOf (st₁.append [x])).map List.getLast? = (candlesOf (st₂.append [x])).map List.getLast? :=
+  run_newest_candle_agrees _ (hc.twinOK round) (shallow_mkTop k name round) init₁ init₂ chunks₁ chunks₂
+    hp₁ hp₂ st₁ st₂ hr₁ hr₂ x hx hL₁ hL₂ hw
 
 end Hex.C07
